@@ -33,6 +33,8 @@ def payloads(tier):
         p = {"kind": kind, "prelude": CLASSES + prelude, "body": body, "expect": "ok" if ok else "err", "tags": tags, "fault": fault}
         if contexts:
             p["contexts"] = contexts
+        elif tier == "quick" and (kind.startswith("carrier-") or "-result-" in kind or kind.endswith("-field")):
+            p["contexts"] = ("top", "fun", "then", "arm", "for")   # quick: the later payload families in 5 of the 9 contexts
         out.append(p)
 
     for P in TYPES:
@@ -75,6 +77,18 @@ def payloads(tier):
             add("reassign-from-field", fp, ["def rfo := RF()", "def pm: %s := %s" % (P, VAL[P]), "pm := rfo.f"], ok, tg, 2)
             add("reassign-from-method-call", rp, ["def rmo := RM()", "def pm: %s := %s" % (P, VAL[P]), "pm := rmo.m()"], ok, tg, 2)
             add("arg-is-field", fp + ["def pf(x: %s) -> Int => 1" % P], ["def rfo := RF()", "def pr: Int := pf(rfo.f)"], ok, tg, 1)
+            # the receiver of the method call / field read is itself a call result (a function's result, a constructor call): its
+            # access constraint is deferred until the receiver has a type
+            cp = rp + fp + ["def mk() -> RM => RM()", "def mkf() -> RF => RF()"]
+            add("init-from-call-result-method", cp, ["def pv: %s := mk().m()" % P], ok, tg, 0)
+            add("init-from-ctor-result-method", cp, ["def pv: %s := RM().m()" % P], ok, tg, 0)
+            add("init-from-call-result-field", cp, ["def pv: %s := mkf().f" % P], ok, tg, 0)
+            add("arg-is-call-result-method", cp + ["def pf(x: %s) -> Int => 1" % P], ["def pr: Int := pf(mk().m())"], ok, tg, 0)
+            add("arg-is-ctor-result-method", cp + ["def pf(x: %s) -> Int => 1" % P], ["def pr: Int := pf(RM().m())"], ok, tg, 0)
+            add("implicit-last-call-result-method", cp + ["def rl() -> %s => mk().m()" % P], ["rl()"], ok, tg, ("prelude", len(CLASSES) + 7))
+            add("implicit-last-ctor-result-method", cp + ["def rl() -> %s => RM().m()" % P], ["rl()"], ok, tg, ("prelude", len(CLASSES) + 7))
+            add("return-call-result-method", cp + ["def rl() -> %s =>" % P, "    return mk().m()"], ["rl()"], ok, tg, ("prelude", len(CLASSES) + 8))
+            add("reassign-from-call-result-method", cp, ["def pm: %s := %s" % (P, VAL[P]), "pm := mk().m()"], ok, tg, 1)
             add("self-field-return", ["class RS2", "    def f: %s := %s" % (T, v), "    def get(self) -> %s => self.f" % P], ["def rso := RS2()", "rso.get()"], ok, tg, ("prelude", len(CLASSES) + 2))
             add("self-method-return", ["class RS", "    def inner(self) -> %s => %s" % (T, v), "    def outer(self) -> %s => self.inner()" % P], ["def rso := RS()", "rso.outer()"], ok, tg,
                 ("prelude", len(CLASSES) + 2))
